@@ -82,6 +82,80 @@ func readerLayout(fn *ssa.Function, tname string, k int, total int64) map[string
 			}
 		}
 	}
+	// fields filled through their address: helper(string(b[lo:hi]), …, &g.F) and rows {string(b[lo:hi]), &g.F} of a
+	// local table walked by a helper; the interval is the one the sibling arguments / sibling row fields are cut from
+	fieldOf := func(v ssa.Value) (string, bool) {
+		fa, ok := v.(*ssa.FieldAddr)
+		if !ok {
+			return "", false
+		}
+		pt, ok := fa.X.Type().Underlying().(*types.Pointer)
+		if !ok {
+			return "", false
+		}
+		nt, ok := pt.Elem().(*types.Named)
+		if !ok || nt.Obj().Name() != tname {
+			return "", false
+		}
+		return fieldName(fa.X.Type(), fa.Field), true
+	}
+	for _, b := range fn.Blocks {
+		for _, ins := range b.Instrs {
+			switch x := ins.(type) {
+			case *ssa.Call:
+				if x.Call.StaticCallee() == nil || len(x.Call.StaticCallee().Blocks) == 0 {
+					continue
+				}
+				for i, arg := range x.Call.Args {
+					f, ok := fieldOf(arg)
+					if !ok {
+						continue
+					}
+					if _, dup := out[f]; dup {
+						continue
+					}
+					var ivs []interval
+					for j, other := range x.Call.Args {
+						if j != i {
+							sliceIntervals(other, fn.Params[k], total, map[ssa.Value]bool{}, &ivs)
+						}
+					}
+					if len(ivs) == 1 {
+						out[f] = ivs[0]
+					}
+				}
+			case *ssa.Store:
+				f, ok := fieldOf(x.Val)
+				if !ok {
+					continue
+				}
+				cell, ok := x.Addr.(*ssa.FieldAddr)
+				if !ok {
+					continue
+				}
+				if _, dup := out[f]; dup {
+					continue
+				}
+				var ivs []interval
+				if refs := cell.X.Referrers(); refs != nil {
+					for _, r := range *refs {
+						sib, ok := r.(*ssa.FieldAddr)
+						if !ok || sib == cell || sib.Field == cell.Field {
+							continue
+						}
+						for _, r2 := range *sib.Referrers() {
+							if st, ok := r2.(*ssa.Store); ok && st.Addr == ssa.Value(sib) {
+								sliceIntervals(st.Val, fn.Params[k], total, map[ssa.Value]bool{}, &ivs)
+							}
+						}
+					}
+				}
+				if len(ivs) == 1 {
+					out[f] = ivs[0]
+				}
+			}
+		}
+	}
 	return out
 }
 
